@@ -38,18 +38,27 @@ func (m *ExecAllRequest) Validate() error {
 		}
 		switch x := op.Operation.(type) {
 		case *Op_Kv:
+			if x.Kv == nil {
+				return status.New(codes.InvalidArgument, "operation is not set").Err()
+			}
 			mk := sha256.Sum256(x.Kv.Key)
 			if _, ok := mops[mk]; ok {
 				return fmt.Errorf("%w: key/reference '%s'", ErrDuplicatedKeysNotSupported, x.Kv.Key)
 			}
 			mops[mk] = struct{}{}
 		case *Op_ZAdd:
+			if x.ZAdd == nil {
+				return status.New(codes.InvalidArgument, "operation is not set").Err()
+			}
 			mk := sha256.Sum256(bytes.Join([][]byte{x.ZAdd.Set, x.ZAdd.Key, []byte(strconv.FormatUint(x.ZAdd.AtTx, 10))}, nil))
 			if _, ok := mops[mk]; ok {
 				return ErrDuplicatedZAddNotSupported
 			}
 			mops[mk] = struct{}{}
 		case *Op_Ref:
+			if x.Ref == nil {
+				return status.New(codes.InvalidArgument, "operation is not set").Err()
+			}
 			mk := sha256.Sum256(x.Ref.Key)
 			if _, ok := mops[mk]; ok {
 				return fmt.Errorf("%w: key/reference '%s'", ErrDuplicatedKeysNotSupported, x.Ref.Key)
